@@ -71,9 +71,12 @@ func valSX(v *variants.Variant) sx.SX {
 		}
 		return sx.L(sx.I(9), sx.I(-1))
 	case variants.Array:
+		// read element by element (Length / GetByIndex): an observation must not be a call that could itself change what
+		// the variant holds (a copy-on-write scheme un-shares on AsArray); AsArray is compared with it below
 		var l sx.List
-		for _, e := range v.AsArray() {
-			l = append(l, valSX(e))
+		n := v.Length()
+		for i := 0; i < n; i++ {
+			l = append(l, valSX(v.GetByIndex(i)))
 		}
 		return sx.L(sx.I(10), l)
 	}
